@@ -248,7 +248,7 @@ def c09_1(cx):
     cx.check(f.const("interned::DEFAULT_REVISIONS") == 3, "default REVISIONS is 3", body=b, detail={"DEFAULT_REVISIONS": f.const("interned::DEFAULT_REVISIONS")}, key="default-revs")
 
 
-@ob("C09.2", ["C09"], "a non-reusable value on the LRU list becomes a reuse candidate", kind="ONLYIF")
+@ob("C09.2", ["C09", "C08"], "a non-reusable value on the LRU list becomes a reuse candidate", kind="ONLYIF")
 def c09_2(cx):
     """Every lru.push_front is guarded by is_reusable(durability) (intern_id fast path and reuse path) or by insert_value's `reusable` flag = is_reusable(value.durability); the durability recorded on a re-interned value is max(old, stamp.durability) and a value that stops being reusable is unlinked."""
     b = cx.fn(IN + r"intern_id$")
@@ -298,7 +298,7 @@ def c09_3(cx):
     cx.flow(pr, cx.arg(cx.one_call(pr, r"^std::option::Option::<T>::is_some_and$", "is_some_and"), 0), [r"last\(\$1\.revisions\)$"], [r"first\("], "is_primed looks at the OLDEST slot")
 
 
-@ob("C09.4", ["C09"], "a queue that forgets an active revision (or records one twice) shifts the staleness horizon", kind="FLOW")
+@ob("C09.4", ["C09", "C08"], "a queue that forgets an active revision (or records one twice) shifts the staleness horizon", kind="FLOW")
 def c09_4(cx):
     """RevisionQueue::record returns early iff revisions[0] >= revision, else record_cold: shifts i-1 -> i from the tail down and stores the new revision at index 0."""
     r = cx.fn(r"^interned::RevisionQueue::record$")
@@ -316,7 +316,14 @@ def c09_4(cx):
         for h in heads:
             cx.check(not k.reaches(h, s), "the shift happens before slot 0 is overwritten", s, key="shift-before-head")
     cx.some_calls(k, r"^std::iter::Iterator::rev$", 1, "shift iterates from the tail")
-    cx.some_calls(k, LOCK, 1, "record_cold serialises writers")
+    lk = cx.some_calls(k, LOCK, 1, "record_cold serialises writers")[0]
+    # the guard must stay alive across the re-check and the whole shift: `let _ = lock()` drops it at once and two
+    # threads recording the first interning of a revision both shift the queue (the revision is recorded twice)
+    rechecks = [s for s in k.calls(r"^revision::AtomicRevision::load$") if re.search(r"\.revisions\[const:0\]$", cx.arg(s, 0))]
+    cx.sites(rechecks, 1, "re-check of revisions[0] under the lock")
+    for s in sts + rechecks:
+        cx.check(k.site_dominates(lk, s) and guard_live_at(k, lk, s), "the queue is re-checked and shifted while the writer lock is held", s, key="revq-locked %s" % ("store" if s in sts else "recheck"))
+    cx.skipped_only_if(k, heads[0], Cmp(r"AtomicRevision::load\(\$1\.revisions\[const:0\]\)$", ">=", r"^\$2$", desc="already recorded (re-check under the lock)"), "record_cold gives up only if another thread already recorded the revision") if heads else None
 
 
 @ob("C01.1i", ["C01", "C07", "C09"], "a query that obtained a reusable interned id without recording the read keeps that id after the slot was reclaimed for another value", kind="MUSTCALL")
